@@ -10,9 +10,9 @@ namespace Lockable
 def Idle (s : State) (d k : Nat) : Prop :=
   ∃ m st, s.ent k = some m ∧ m.holder = none ∧ m.value = some st ∧ st.stamp + d ≤ s.now
 
-/-- **Exact**: in every reachable state, for every duration `d` (0, anything, larger than the age of the
-clock = `Duration::MAX`), the call returns a guard for exactly the idle entries — none younger, none
-missing, none locked, none without value, each once. -/
+/-- **Exact** (clock read and scan with nothing in between, e.g. a single caller): in every reachable state, for every
+duration `d` (0, anything, larger than the age of the clock = `Duration::MAX`), the call returns a guard for exactly the idle
+entries — none younger, none missing, none locked, none without value, each once. -/
 theorem C10_exact (kind : Kind) (as : List Act) (d : Nat) (hids : List Nat) :
     let s := run (State.init kind) as
     s.freshList hids = true → s.order.length ≤ hids.length →
@@ -22,13 +22,14 @@ theorem C10_exact (kind : Kind) (as : List Act) (d : Nat) (hids : List Nat) :
   intro s hf hlen
   have hi : Inv s := inv_reachable kind as
   have hfl := freshL_of s hids hf
-  unfold expire
+  unfold expire expireAt cutoffOf
   simp only [hi.notWedged, Bool.false_eq_true, ↓reduceIte]
-  split
-  · rename_i hgt
+  by_cases hgt : d > s.now
+  · simp only [hgt, ↓reduceIte]
     refine ⟨[], rfl, List.nodup_nil, by simp, ?_⟩
     intro k ⟨m, st, _, _, _, hle⟩; omega
-  · rename_i hle
+  · simp only [hgt, ↓reduceIte]
+    have hle := hgt
     have hle' : d ≤ s.now := by omega
     have := expireLoop_exact s.order s hids (s.now - d) [] hi.nodup hfl.2 hlen (by simp)
     obtain ⟨a1, a2, _⟩ := this
@@ -54,11 +55,53 @@ theorem C10_exact (kind : Kind) (as : List Act) (d : Nat) (hids : List Nat) :
       obtain ⟨h, hh, _, e⟩ := a2 k hko ((hconv k).2 hk)
       exact ⟨h, hh, e⟩
 
+/-- **Exact under concurrency**: the library reads the clock *before* it takes the global lock for the scan, so other
+threads may act in between. Whatever they did: in the state in which the scan runs, it returns a guard for exactly the
+entries that are unlocked, have a value and whose last guard was dropped at or before the cut-off computed from that
+earlier clock read — each once, none locked, none without value. -/
+theorem C10_exact_at (kind : Kind) (as : List Act) (c : Nat) (hids : List Nat) :
+    let s := run (State.init kind) as
+    s.freshList hids = true → s.order.length ≤ hids.length →
+    ∃ hs, (expireAt s (some c) hids).2 = .list hs ∧ hs.Nodup ∧
+      (∀ h ∈ hs, ∃ k, Elig s c k ∧ hkey ((expireAt s (some c) hids).1.hs h) = some k ∧
+        hst ((expireAt s (some c) hids).1.hs h) = some .holding) ∧
+      (∀ k, Elig s c k → ∃ h ∈ hs, hkey ((expireAt s (some c) hids).1.hs h) = some k) := by
+  intro s hf hlen
+  have hi : Inv s := inv_reachable kind as
+  have hfl := freshL_of s hids hf
+  unfold expireAt
+  simp only [hi.notWedged, Bool.false_eq_true, ↓reduceIte]
+  obtain ⟨a1, a2, _⟩ := expireLoop_exact s.order s hids c [] hi.nodup hfl.2 hlen (by simp)
+  refine ⟨_, rfl, expireLoop_nodup s.order s hids c [] hfl.2 (by simp) List.nodup_nil, ?_, ?_⟩
+  · intro h hh
+    rcases a1 h hh with l | ⟨_, k, _, e1, e2, e3⟩
+    · cases l
+    · exact ⟨k, e1, e2, e3⟩
+  · intro k hk
+    have hko : k ∈ s.order := by
+      obtain ⟨m, _, e, _⟩ := hk; exact (hi.keys k).2 (by simp [e])
+    obtain ⟨h, hh, _, e⟩ := a2 k hko hk
+    exact ⟨h, hh, e⟩
+
+/-- … and a duration that reaches back before the clock's origin (`checked_sub` fails: `Duration::MAX`) returns nothing
+and changes nothing. -/
+theorem C10_before_origin (s : State) (hids : List Nat) (hw : s.wedged = false) : expireAt s none hids = (s, .list []) := by
+  simp [expireAt, hw]
+
+/-- What the earlier clock read means at scan time: if the clock was read at `t₀ ≤ now` and `d ≤ t₀`, every entry the scan
+returns has been idle for at least `d` *now* (none younger), and every entry idle for at least `d` plus the time that passed
+since the clock read is returned (the only entries "missing" are those that became old enough after the clock was read). -/
+theorem C10_read_then_scan (s : State) (t₀ d : Nat) (h₀ : t₀ ≤ s.now) (hd : d ≤ t₀) :
+    (∀ k, Elig s (t₀ - d) k → Idle s d k) ∧ (∀ k, Idle s (d + (s.now - t₀)) k → Elig s (t₀ - d) k) := by
+  constructor
+  · rintro k ⟨m, st, e1, e2, e3, e4⟩; exact ⟨m, st, e1, e2, e3, by omega⟩
+  · rintro k ⟨m, st, e1, e2, e3, e4⟩; exact ⟨m, st, e1, e2, e3, by omega⟩
+
 /-- **No side effects**: the call changes no stored value, no stamp (the idle age of every entry it
 does not return keeps counting), not the iteration order, and no existing handle. -/
 theorem C10_no_side_effect (s : State) (d : Nat) (hids : List Nat) (k : Nat) :
     absSt (expire s d hids).1 k = absSt s k ∧ (expire s d hids).1.order = s.order ∧ (expire s d hids).1.now = s.now := by
-  unfold expire
+  unfold expire expireAt
   split
   · exact ⟨rfl, rfl, rfl⟩
   · split
